@@ -42,6 +42,10 @@ var (
 	exrecAssets = []string{"apple", "apples", "applesauce", "app", "pear"}
 	exrecPrices = []string{"usd", "eur"}
 	exrecExts   = []string{"x1", "x2", "x3"}
+	// external ids at the length limits (exchange.MaxExternalIDLength = 100): one char, one
+	// below the limit, exactly the limit (two different ones, one a prefix-extension of the 99),
+	// one above (must be refused everywhere). `c^n` stands for c repeated n times.
+	exrecEdgeExts = []string{"q", "y^99", "y^100", "z^100", "y^101"}
 )
 
 const exrecPageCap = 60
@@ -104,16 +108,26 @@ func exrecNameOf(a []byte) string {
 	return strings.TrimRight(string(a), "_")
 }
 
+// exrecExt decodes an external id of an op line: `~`/`-` = empty, `c^n` = c repeated n times.
 func exrecExt(s string) string {
 	if s == "~" || s == "-" {
 		return ""
 	}
+	if len(s) >= 3 && s[1] == '^' {
+		if n, err := strconv.Atoi(s[2:]); err == nil && n >= 0 && n <= 100000 {
+			return strings.Repeat(s[:1], n)
+		}
+	}
 	return s
 }
 
+// exrecShowExt is the canonical rendering: runs of one character of length >= 8 as `c^n`.
 func exrecShowExt(s string) string {
 	if s == "" {
 		return "~"
+	}
+	if len(s) >= 8 && strings.Count(s, s[:1]) == len(s) {
+		return s[:1] + "^" + strconv.Itoa(len(s))
 	}
 	return s
 }
@@ -600,18 +614,28 @@ func (e *exrecEnv) look(ws []string) string {
 	mk, ow, dn, xs := exrecList(kvArg(ws, "mk")), exrecList(kvArg(ws, "ow")), exrecList(kvArg(ws, "dn")), exrecList(kvArg(ws, "xs"))
 	var parts []string
 	all := "err:invalid"
+	var allOrders []*exchange.Order
 	if r, err := e.qs.GetAllOrders(e.ctx, &exchange.QueryGetAllOrdersRequest{Pagination: &query.PageRequest{Limit: 100000}}); err == nil {
 		var briefs []string
 		for _, o := range r.Orders {
-			t := "a"
-			if o.IsBidOrder() {
-				t = "b"
-			}
-			briefs = append(briefs, fmt.Sprintf("%d:%d:%s:%s:%s:%s", o.OrderId, o.GetMarketID(), e.nameOfBech(o.GetOwner()), o.GetAssets().Denom, exrecShowExt(o.GetExternalID()), t))
+			briefs = append(briefs, e.orderBrief(o))
 		}
+		allOrders = r.Orders
 		all = JoinOr(briefs, ",")
 	}
 	parts = append(parts, "all="+all)
+	// every listed order fetched by id (GetOrder)
+	{
+		var briefs []string
+		for _, o := range allOrders {
+			b := strconv.FormatUint(o.OrderId, 10) + ":?"
+			if r, err := e.qs.GetOrder(e.ctx, &exchange.QueryGetOrderRequest{OrderId: o.OrderId}); err == nil && r.Order != nil {
+				b = e.orderBrief(r.Order)
+			}
+			briefs = append(briefs, b)
+		}
+		parts = append(parts, "g="+JoinOr(briefs, ","))
+	}
 	for _, m := range mk {
 		parts = append(parts, "m."+m+"="+e.itemsOf(exrecQ{kind: "market", arg: m}))
 	}
@@ -632,6 +656,20 @@ func (e *exrecEnv) look(ws []string) string {
 		}
 	}
 	parts = append(parts, "pall="+e.itemsOf(exrecQ{kind: "payall"}))
+	// every listed payment fetched by (source, external id) (GetPayment)
+	if r, err := e.qs.GetAllPayments(e.ctx, &exchange.QueryGetAllPaymentsRequest{Pagination: &query.PageRequest{Limit: 100000}}); err == nil {
+		var its []string
+		for _, p := range r.Payments {
+			it := e.nameOfBech(p.Source) + ":" + exrecShowExt(p.ExternalId) + ":?"
+			if g, err := e.qs.GetPayment(e.ctx, &exchange.QueryGetPaymentRequest{Source: p.Source, ExternalId: p.ExternalId}); err == nil && g.Payment != nil {
+				it = e.payItems([]*exchange.Payment{g.Payment})[0]
+			}
+			its = append(its, it)
+		}
+		parts = append(parts, "gp="+JoinOr(its, ","))
+	} else {
+		parts = append(parts, "gp=err:invalid")
+	}
 	for _, o := range ow {
 		parts = append(parts, "ps."+o+"="+e.itemsOf(exrecQ{kind: "paysrc", arg: o}))
 	}
@@ -643,6 +681,34 @@ func (e *exrecEnv) look(ws []string) string {
 		parts = append(parts, "cm."+m+"="+e.itemsOf(exrecQ{kind: "commkt", arg: m}))
 	}
 	return strings.Join(parts, " ")
+}
+
+func (e *exrecEnv) orderBrief(o *exchange.Order) string {
+	t := "a"
+	if o.IsBidOrder() {
+		t = "b"
+	}
+	return fmt.Sprintf("%d:%d:%s:%s:%s:%s", o.OrderId, o.GetMarketID(), e.nameOfBech(o.GetOwner()), o.GetAssets().Denom, exrecShowExt(o.GetExternalID()), t)
+}
+
+// holds renders what the hold module has on hold for each account (sorted by denom).
+func (e *exrecEnv) holds(ws []string) string {
+	var parts []string
+	for _, o := range exrecList(kvArg(ws, "ow")) {
+		v := "?"
+		if cs, err := exrecApp.HoldKeeper.GetHoldCoins(e.ctx, exrecAddr(o)); err == nil {
+			var items []string
+			for _, c := range cs.Sort() {
+				if c.Amount.IsZero() {
+					continue
+				}
+				items = append(items, c.Amount.String()+c.Denom)
+			}
+			v = JoinOr(items, ",")
+		}
+		parts = append(parts, o+"="+v)
+	}
+	return JoinOr(parts, " ")
 }
 
 // exec executes one op line on the real code.
@@ -659,6 +725,8 @@ func (e *exrecEnv) exec(line string) string {
 		return e.raw()
 	case "look":
 		return e.look(ws)
+	case "holds":
+		return e.holds(ws)
 	case "q":
 		return e.pages(exrecParseQ(ws), kvArg(ws, "mode"))
 	case "q1":
@@ -740,14 +808,16 @@ func (g *exrecGen) market() string {
 
 func (g *exrecGen) ext() string {
 	switch r := g.rng.Intn(100); {
-	case r < 45:
+	case r < 40:
 		return "~"
-	case r < 97:
+	case r < 80:
 		return Pick(g.rng, exrecExts)
 	default:
-		return strings.Repeat("y", 100+g.rng.Intn(2)) // the length limit is 100
+		return Pick(g.rng, exrecEdgeExts) // lengths 1, 99, 100 (the limit), 101
 	}
 }
+
+func (g *exrecGen) holdsLine() string { return "holds ow=" + strings.Join(exrecOwners, "|") }
 
 func (g *exrecGen) admin() string {
 	if g.rng.Chance(88) {
@@ -758,7 +828,7 @@ func (g *exrecGen) admin() string {
 
 func (g *exrecGen) lookLine() string {
 	mk := []string{"1", "2", "3", "4", "5"}
-	return "look mk=" + strings.Join(mk, "|") + " ow=" + strings.Join(exrecOwners, "|") + " dn=" + strings.Join(exrecAssets, "|") + " xs=" + strings.Join(exrecExts, "|")
+	return "look mk=" + strings.Join(mk, "|") + " ow=" + strings.Join(exrecOwners, "|") + " dn=" + strings.Join(exrecAssets, "|") + " xs=" + strings.Join(append(append([]string{}, exrecExts...), exrecEdgeExts...), "|")
 }
 
 func (g *exrecGen) createOrder() {
@@ -803,7 +873,16 @@ func (g *exrecGen) createOrder() {
 	if g.rng.Chance(20) {
 		ap = "0"
 	}
-	g.emit(fmt.Sprintf("%s m=%s o=%s d=%s a=%d pd=%s p=%d x=%s ap=%s", kind, m, owner, d, a, pd, p, g.ext(), ap))
+	x := g.ext()
+	if os := g.openOrders(); len(os) > 0 && g.rng.Chance(12) {
+		// an external id that an open order of the market already carries: must be refused
+		if o := Pick(g.rng, os); o.GetExternalID() != "" {
+			m, x = strconv.Itoa(int(o.GetMarketID())), exrecShowExt(o.GetExternalID())
+			g.out.Count("branch:create_existing_ext")
+		}
+	}
+	g.out.Count(fmt.Sprintf("extlen:order:%03d", len(exrecExt(x))))
+	g.emit(fmt.Sprintf("%s m=%s o=%s d=%s a=%d pd=%s p=%d x=%s ap=%s", kind, m, owner, d, a, pd, p, x, ap))
 }
 
 func (g *exrecGen) orderID() string {
@@ -874,7 +953,17 @@ func (g *exrecGen) paymentOp() {
 		if g.rng.Chance(30) {
 			x = "~"
 		}
-		g.emit(fmt.Sprintf("pay s=%s t=%s a=%d ta=%d x=%s", Pick(g.rng, exrecOwners), t, a, ta, x))
+		src := Pick(g.rng, exrecOwners)
+		if len(ps) > 0 && g.rng.Chance(30) {
+			// a create for the (source, external id) of a payment that exists: must be refused
+			p := Pick(g.rng, ps)
+			src, x = g.e.nameOfBech(p.Source), exrecShowExt(p.ExternalId)
+			g.out.Count("branch:pay_existing_key")
+			if p.ExternalId == "" {
+				g.out.Count("branch:pay_existing_key_empty_ext")
+			}
+		}
+		g.emit(fmt.Sprintf("pay s=%s t=%s a=%d ta=%d x=%s", src, t, a, ta, x))
 	case r < 55:
 		s, x, t := pick()
 		if g.rng.Chance(20) {
@@ -1020,7 +1109,6 @@ func (g *exrecGen) qBattery(exhaustive int, sampled int) {
 	}
 }
 
-
 func (g *exrecGen) history(thorough bool) {
 	g.mkts = nil
 	nm := 1 + g.rng.Intn(3)
@@ -1061,7 +1149,9 @@ func (g *exrecGen) history(thorough bool) {
 			if o, _ := g.e.k.GetOrder(g.e.ctx, idn); o != nil && g.rng.Chance(90) {
 				m = strconv.Itoa(int(o.GetMarketID()))
 			}
-			g.emit(fmt.Sprintf("setext m=%s id=%s x=%s by=%s", m, id, g.ext(), g.admin()))
+			sx := g.ext()
+			g.out.Count(fmt.Sprintf("extlen:setext:%03d", len(exrecExt(sx))))
+			g.emit(fmt.Sprintf("setext m=%s id=%s x=%s by=%s", m, id, sx, g.admin()))
 		case r < 68:
 			g.settle()
 		case r < 86:
@@ -1091,6 +1181,9 @@ func (g *exrecGen) history(thorough bool) {
 		if g.rng.Chance(50) {
 			g.emit(g.lookLine())
 		}
+		if g.rng.Chance(35) {
+			g.emit(g.holdsLine())
+		}
 		if g.rng.Chance(10) {
 			g.emit("get id=" + g.orderID())
 			gm, gx := g.market(), g.ext()
@@ -1099,13 +1192,19 @@ func (g *exrecGen) history(thorough bool) {
 				gm, gx = strconv.Itoa(int(o.GetMarketID())), exrecShowExt(o.GetExternalID())
 			}
 			g.emit(fmt.Sprintf("getext m=%s x=%s", gm, gx))
-			g.emit(fmt.Sprintf("getpay s=%s x=%s", Pick(g.rng, exrecOwners), g.ext()))
+			ps, px := Pick(g.rng, exrecOwners), g.ext()
+			if pays := g.payments(); len(pays) > 0 && g.rng.Chance(60) {
+				p := Pick(g.rng, pays)
+				ps, px = g.e.nameOfBech(p.Source), exrecShowExt(p.ExternalId)
+			}
+			g.emit(fmt.Sprintf("getpay s=%s x=%s", ps, px))
 		}
 		if i == mid {
 			g.qBattery(1, 4)
 		}
 	}
 	g.emit(g.lookLine())
+	g.emit(g.holdsLine())
 	if thorough {
 		g.qBattery(4, 12)
 	} else {
